@@ -177,6 +177,7 @@ func runC07(r *Run) {
 	r.Has("common/db.(*memdbManager).Add", "store recv.frontierIdentifier = a0.GetCommits()[(len(a0.GetCommits())-1)].Identifier()", "the new head becomes the frontier")
 
 	viewIsolationRules(r)
+	patchOrderRules(r) // what a view reports as its change set
 
 	// (4) lock discipline
 	r.Lockset("common/db", "ldbManager", "changes", []string{"ldb", "l1Cache", "l2Cache", "stopped"}, []string{"getPatch", "getRollback"}, nil,
